@@ -1094,7 +1094,7 @@ def trlog(T, check=True, twist=False):
                 return np.zeros((3,))
             else:
                 return np.zeros((3, 3))
-        elif abs(np.trace(R) + 1) < 100 * _eps:
+        elif abs(np.trace(R) + 1) < 10 * _eps:
             # check for trace = -1
             #   rotation by +/- pi, +/- 3pi etc.
             diagonal = R.diagonal()
